@@ -3,7 +3,7 @@
    No Extract Constant directive is used. *)
 From Coq Require Import ExtrOcamlBasic.
 From Coq Require Import ZArith NArith List.
-From V Require Import Model.Quorum Model.Median Model.ZMap Model.HgImpl Model.Store Model.NodeModel Model.HgSpec Model.Gate Model.Proxy Model.FastSync Model.Wire Model.Hostile Model.Recovery.
+From V Require Import Model.Quorum Model.Median Model.ZMap Model.HgImpl Model.Store Model.NodeModel Model.HgSpec Model.Gate Model.Proxy Model.FastSync Model.Wire Model.Hostile Model.Recovery Model.HgReset.
 Extraction Language OCaml.
 Set Extraction KeepSingleton.
 Separate Extraction Z.add Z.mul Z.div Z.modulo Z.opp Z.sub Z.of_nat Z.to_nat Z.of_N Z.to_N Z.eqb Z.ltb Z.leb
@@ -27,4 +27,5 @@ Separate Extraction Z.add Z.mul Z.div Z.modulo Z.opp Z.sub Z.of_nat Z.to_nat Z.o
   Hostile.peer_id Hostile.new_peer_set Hostile.get_signatures Hostile.set_signature Hostile.fe_less
   Hostile.collect_roots Hostile.process_sigpool Hostile.ff_check Hostile.sync_request Hostile.join_request
   Hostile.eager_sync Hostile.quote_str
-  Recovery.db_of_log Recovery.bootstrap Recovery.bootstrap_cur Recovery.head_seq Recovery.node_log.
+  Recovery.db_of_log Recovery.bootstrap Recovery.bootstrap_cur Recovery.head_seq Recovery.node_log
+  HgReset.node_fast_forward HgReset.anchor_block_with_frame HgReset.reset_from HgReset.frame_cores HgReset.frame_shapeb.
